@@ -13,7 +13,8 @@ Statements expected false of the pinned tree (DESIGN §6 C07 ⟂) come as a coun
   * `aidx_footer_hash_bytes_compared`  holds since fix 6b0ee35 (was ⟂: the former witness is now
                                         `aidx_unhashed_footer_rejected`)
   * `load_verifies_guards`             ⟂  witnesses `update_load_ignores_guard`, `segment_load_ignores_checksums`
-  * `v1_checksum_required`             ⟂  witness `v1_damaged_checksum_line_unchecked`
+  * `v1_checksum_required`             ⟂  witnesses `v1_damaged_checksum_line_unchecked`,
+                                        `v1_damaged_last_line_earlier_governs`
   * `validated_get_sound` (all sizes)  ⟂  witness `validated_get_large_unchecked`
 -/
 import Cascette.Proofs.Integrity
@@ -285,6 +286,40 @@ theorem v1_corruption_needs_collision (H : Hash) (raw raw' m m' c : Bytes)
   have e2 := (v1_checked_accepts_iff H raw' m' c h').mp hp'
   exact ⟨hne, Proofs.Integrity.V1.hexLower_inj _ _ (by rw [e1, e2])⟩
 
+/-- `v1_wellformed_last_line_governs` (the converse of `v1_checksum_last_line`, no hypothesis on the
+protected bytes): an input that ENDS in a well-formed checksum line — `Checksum: `, 64 hex digits,
+then `\n`, `\r\n` or the end of the input — is always split at THAT line, whatever the bytes `a`
+before it contain: earlier occurrences of the text `Checksum: ` (free text, well-formed 64-digit lines,
+lines that are valid for their own prefix, at a line start or mid-line) never take its place. -/
+theorem v1_wellformed_last_line_governs (a c eol : Bytes) (hl : c.length = 64) (hx : c.all V1.isHexDigit = true)
+    (heol : eol = [] ∨ eol = [0x0a] ∨ eol = [0x0d, 0x0a]) :
+    V1.extract (a ++ V1.pfx ++ c ++ eol) = (a, some c) :=
+  Proofs.Integrity.V1.extract_wellformed_last a c eol hl hx heol
+
+/-- … hence such a response passes iff the 64 digits are the lower-case hex of `H` of ALL bytes before
+the line, and is rejected with the checksum error otherwise (never passed on unchecked). -/
+theorem v1_sealed_accepts_iff (H : Hash) (a c eol : Bytes) (hl : c.length = 64) (hx : c.all V1.isHexDigit = true)
+    (heol : eol = [] ∨ eol = [0x0a] ∨ eol = [0x0d, 0x0a]) :
+    V1.check H (a ++ V1.pfx ++ c ++ eol) = if V1.hexLower (H a) = c then .pass a (some c) else .checksumErr := by
+  unfold V1.check; rw [v1_wellformed_last_line_governs a c eol hl hx heol]
+
+/-- Corruption form for sealed responses, with NO side condition on the content: if `a` passes under
+the line `c`, every other protected part `a'` under the same line (any of the three line ends) is
+REJECTED unless `H a' = H a` — in particular when `a` / `a'` contain `Checksum: ` themselves. -/
+theorem v1_sealed_corruption_rejected (H : Hash) (a a' c eol eol' : Bytes) (hl : c.length = 64)
+    (hx : c.all V1.isHexDigit = true) (heol : eol = [] ∨ eol = [0x0a] ∨ eol = [0x0d, 0x0a])
+    (heol' : eol' = [] ∨ eol' = [0x0a] ∨ eol' = [0x0d, 0x0a])
+    (hp : V1.check H (a ++ V1.pfx ++ c ++ eol) = .pass a (some c)) (hnc : H a' ≠ H a) :
+    V1.check H (a' ++ V1.pfx ++ c ++ eol') = .checksumErr := by
+  rw [v1_sealed_accepts_iff H a c eol hl hx heol] at hp
+  rw [v1_sealed_accepts_iff H a' c eol' hl hx heol']
+  have e1 : V1.hexLower (H a) = c := by
+    by_cases h : V1.hexLower (H a) = c
+    · exact h
+    · rw [if_neg h] at hp; cases hp
+  have : V1.hexLower (H a') ≠ c := fun h => hnc (Proofs.Integrity.V1.hexLower_inj _ _ (by rw [h, e1]))
+  rw [if_neg this]
+
 /-- ⟂ `v1_checksum_required` (counter-witness, every `H`): a response whose checksum line is damaged
 (here: 63 digits) is passed on UNCHECKED with the whole input as message — the check fails open. -/
 theorem v1_damaged_checksum_line_unchecked (H : Hash) :
@@ -293,6 +328,22 @@ theorem v1_damaged_checksum_line_unchecked (H : Hash) :
   have : V1.extract ([0x58, 0x0a] ++ V1.pfx ++ List.replicate 63 0x30 ++ [0x0a]) =
       ([0x58, 0x0a] ++ V1.pfx ++ List.replicate 63 0x30 ++ [0x0a], none) := by decide
   unfold V1.check; rw [this]
+
+/-- ⟂ `v1_checksum_required`, second shape (same root: a damaged line is treated as absent): the
+protected bytes contain a nested `Checksum:` line that is valid for its own prefix `A\n`
+(`H (A\n) = 0^32`); one bit of the response's OWN last line is flipped (`C` → `B`), the nested
+line becomes the last one and the response passes as CHECKED with everything after `A\n` cut
+away (the row `B\n` is lost). -/
+theorem v1_damaged_last_line_earlier_governs (H : Hash) (hA : H [0x41, 0x0a] = List.replicate 32 0) :
+    V1.check H ([0x41, 0x0a] ++ V1.pfx ++ List.replicate 64 0x30 ++ [0x0a] ++ [0x42, 0x0a] ++
+        ([0x42] ++ V1.pfx.drop 1) ++ List.replicate 64 0x31 ++ [0x0a]) =
+      .pass [0x41, 0x0a] (some (List.replicate 64 0x30)) := by
+  have : V1.extract ([0x41, 0x0a] ++ V1.pfx ++ List.replicate 64 0x30 ++ [0x0a] ++ [0x42, 0x0a] ++
+        ([0x42] ++ V1.pfx.drop 1) ++ List.replicate 64 0x31 ++ [0x0a]) =
+      ([0x41, 0x0a], some (List.replicate 64 0x30)) := by decide +kernel
+  unfold V1.check; rw [this]
+  simp only [hA]
+  decide
 
 /-! ### Validating caches -/
 
